@@ -101,17 +101,6 @@ func (bbs *BBSG2Pub) Sign(messages [][]byte, privKeyBytes []byte) ([]byte, error
 	return bbs.SignWithKey(messages, privKey)
 }
 
-// RevealedMessagesCount returns the number of messages the given BBS+ signature proof reveals, i.e. the number of
-// messages VerifyProof takes into account (it ignores any messages supplied beyond that number).
-func RevealedMessagesCount(proof []byte) (int, error) {
-	payload, err := parsePoKPayload(proof)
-	if err != nil {
-		return 0, fmt.Errorf("parse signature proof: %w", err)
-	}
-
-	return len(payload.revealed), nil
-}
-
 // VerifyProof verifies BBS+ signature proof for one ore more revealed messages.
 func (bbs *BBSG2Pub) VerifyProof(messagesBytes [][]byte, proof, nonce, pubKeyBytes []byte) error {
 	payload, err := parsePoKPayload(proof)
